@@ -24,6 +24,7 @@ import (
 	"github.com/bitcoin-sv/block-headers-service/internal/wire"
 	"github.com/bitcoin-sv/block-headers-service/notification"
 	"github.com/bitcoin-sv/block-headers-service/service"
+	"github.com/bitcoin-sv/block-headers-service/transports/p2p"
 	peerpkg "github.com/bitcoin-sv/block-headers-service/transports/p2p/peer"
 	"github.com/bitcoin-sv/block-headers-service/verifharness/gen"
 	"github.com/bitcoin-sv/block-headers-service/verifharness/refmodel"
@@ -115,6 +116,7 @@ type Scenario struct {
 	HitAndRun           bool           `json:"hit_and_run,omitempty"`            // C07: at the end a host delivers the forbidden header and hangs up at once; a newcomer of that host must be refused (1 h ban)
 	ReOffend            bool           `json:"re_offend,omitempty"`              // C07: at the end a host with two connections sends the forbidden header, its ban (ban_duration_ms, seconds) elapses unnoticed, the second connection offends again, and a newcomer of that host must be refused
 	AgeHours            int            `json:"age_hours,omitempty"`              // every block (the announced ones too) is this many hours old: with 25+ the service never considers its chain current (it then follows inv announcements of its sync peer only)
+	DelayPoints         map[string]int `json:"delay_points,omitempty"`           // milliseconds a goroutine of the default engine pauses at a named delay point of the repository (build tag verif), to widen interleavings
 	IdleSec             int            `json:"idle_sec,omitempty"`               // after the initial sync nothing happens for this many seconds (the sync manager's periodic sync-peer check runs every 30 s and judges a quiet peer after three of them)
 	HeldWebhook         bool           `json:"held_webhook,omitempty"`           // a webhook is registered whose endpoint accepts every delivery and answers none of them until the initial sync has been judged
 	DropNode0AfterSync  bool           `json:"drop_node0_after_sync,omitempty"`  // C06: node 0 drops all connections after the initial sync and stays unreachable; node 1 (a laggard that catches up) is the honest announcer from then on
@@ -452,6 +454,9 @@ func Execute(s *Scenario, dir string) (res *Result) {
 			res.What = "panic: " + fmt.Sprint(p)
 		}
 	}()
+	for name, ms := range s.DelayPoints {
+		p2p.VerifSetDelay(name, time.Duration(ms)*time.Millisecond)
+	}
 	x.rig = NewRig()
 	genesis := x.rig.Genesis
 	x.w = BuildWorld(s, genesis)
